@@ -119,9 +119,15 @@ func (it *NativeIterator) Merge(oldval []byte) (val []byte, err error) {
 	oldTS := h.Timestamp
 	newTS := header.Timestamp(entry.TimestampNano)
 	actualOldVal := appVal
+	oldDeleted := h.Flags.IsDeleted()
+	// A deleted entry never carries a value (see addHeader), so compare it as such
+	newDeleted := entry.MaskedFlags().IsDeleted() || (len(entryVal) == 0 && it.FormatVersion < 2)
+	if newDeleted {
+		entryVal = nil
+	}
 	if newTS == 0 {
 		// Special handling for main to shadow copy that uses a default timestamp
-		if bytes.Equal(actualOldVal, entryVal) {
+		if bytes.Equal(actualOldVal, entryVal) && oldDeleted == newDeleted {
 			return oldval, nil // do not update timestamp
 		}
 		newTS = it.DefaultTimestampNano
@@ -130,10 +136,15 @@ func (it *NativeIterator) Merge(oldval []byte) (val []byte, err error) {
 		// Current LMDB value has a higher timestamp, so keep that one
 		return oldval, nil
 	}
-	if newTS == oldTS && bytes.Compare(actualOldVal, entryVal) <= 0 {
+	if newTS == oldTS {
 		// Same timestamp, lexicographic lower app value wins for deterministic values,
 		// so return the old value if the plain value was lower or equal.
-		return oldval, nil
+		// For equal values a deleted entry wins over a live one, so that the
+		// outcome does not depend on the order in which they are merged.
+		cmp := bytes.Compare(actualOldVal, entryVal)
+		if cmp < 0 || (cmp == 0 && (oldDeleted || !newDeleted)) {
+			return oldval, nil
+		}
 	}
 	// Update LMDB value
 	return it.addHeader(entryVal, newTS, entry.MaskedFlags(), false)
